@@ -33,6 +33,7 @@ static void one(const std::string &v) {
 int main(int argc, char **argv) {
   auto in = replay_io::load(argv[1]);
   unsigned c = in.count("C") ? (unsigned)replay_io::u64(in["C"]) & 0xFF : 1;
+  if (in.count("ALL")) for (unsigned k = 0; k < 256; k++) one(std::string(1, (char)k));   // sweep of the full domain
   one(std::string(1, (char)c));                    // the byte alone
   one(std::string("x") + (char)c + "y");          // and inside a string
   replay_io::ok("contract clauses hold on this input");
